@@ -1,6 +1,7 @@
 import ColaVerif.Properties.C06
 import ColaVerif.Properties.C12
 import ColaVerif.Lemmas.InvKrylovBridge
+import ColaVerif.Lemmas.InvOptions
 
 /-!
 # C06 ∘ C12: `solve(A, b, CG)` solves the system when CG is run to the grade
@@ -32,10 +33,14 @@ noncomputable def cgColumn (maxIters : ℕ) (tol : ℝ) (n : ℕ) (A : Op 𝕜) 
       ((tol : ℝ) : 𝕜) 0) ⟨i, h⟩ else 0)
 
 /-- a parameter set whose CG solver, on one column and for operators of extent `n`, is the C12
-model (everything else as in `E0`) -/
-noncomputable def withCG (E0 : Ext 𝕜) (maxIters : ℕ) (tol : ℝ) (n : ℕ) : Ext 𝕜 :=
+model RUN WITH THE OPTIONS OF THE SOLVER OBJECT it is called with (`CG(tol, max_iters).__call__` is
+`cg(A, b, **self.__dict__)`, cg.py:36); everything else as in `E0` -/
+noncomputable def withCG (E0 : Ext 𝕜) (n : ℕ) : Ext 𝕜 :=
   { E0 with solve := fun alg A b X =>
-      if alg = .cg ∧ b = 1 ∧ A.rows = n then cgColumn maxIters tol n A X else E0.solve alg A b X }
+      match alg with
+      | .cg o => if b = 1 ∧ A.rows = n then cgColumn o.maxIters (o.tol : ℝ) n A X
+                 else E0.solve (.cg o) A b X
+      | alg => E0.solve alg A b X }
 
 omit [DecidableEq 𝕜] in
 private theorem coercive_id (n : ℕ) : Coercive (LinearMap.id : EuclideanSpace 𝕜 (Fin n) →ₗ[𝕜] _) 1 := by
@@ -46,24 +51,47 @@ private theorem coercive_id (n : ℕ) : Coercive (LinearMap.id : EuclideanSpace 
 
 /-- **the composition step**: if the iterate the C12 model returns solves the system, then
 `solve(A, X, CG)` of C06 — with that model as the solver parameter — satisfies `A · Y = X`. -/
-theorem C06_solve_of_cg_exact (E0 : Ext 𝕜) (maxIters : ℕ) (tol : ℝ) (n : ℕ) (A : Op 𝕜)
+theorem C06_solve_of_cg_exact (E0 : Ext 𝕜) (alg : Alg) (o : KOpts) (n : ℕ) (A : Op 𝕜)
     (hn : A.rows = n)
-    (hB : invRule (withCG E0 maxIters tol n) .cg A = .ok (.iterInv A .cg)) (X : MatF 𝕜)
-    (hx : denLin n A (xOut (MatF.toMatrix n n A.den.f) none (oneCol (colVec n X 0)) (oneCol 0) maxIters
-      ((tol : ℝ) : 𝕜) 0) = colVec n X 0) :
-    ∃ Y, solveRule (withCG E0 maxIters tol n) .cg A 1 X = .ok Y ∧ EqOn n 1 (mmul n A.den.f Y.f) X := by
+    (hB : invRule (withCG E0 n) alg A = .ok (.iterInv A (.cg o))) (X : MatF 𝕜)
+    (hx : denLin n A (xOut (MatF.toMatrix n n A.den.f) none (oneCol (colVec n X 0)) (oneCol 0) o.maxIters
+      (((o.tol : ℝ) : ℝ) : 𝕜) 0) = colVec n X 0) :
+    ∃ Y, solveRule (withCG E0 n) alg A 1 X = .ok Y ∧ EqOn n 1 (mmul n A.den.f Y.f) X := by
   have hcall : EqOn A.rows 1
-      (mmul A.rows A.den.f ((withCG E0 maxIters tol n).solve .cg A 1 X).f) X := by
+      (mmul A.rows A.den.f ((withCG E0 n).solve (.cg o) A 1 X).f) X := by
     rw [hn]
-    have hsol : ((withCG E0 maxIters tol n).solve .cg A 1 X) = cgColumn maxIters tol n A X := by
+    have hsol : ((withCG E0 n).solve (.cg o) A 1 X) = cgColumn o.maxIters (o.tol : ℝ) n A X := by
       simp [withCG, hn]
     rw [hsol]
     apply eqOn_of_denLin_eq n A X _ hx
     intro q hq
     simp only [cgColumn, MatV.of_f, dif_pos hq]
-  obtain ⟨Y, hY, _, hsolves⟩ := C06_solve_iter_call (withCG E0 maxIters tol n) .cg .cg A hB 1 X hcall
+  obtain ⟨Y, hY, _, hsolves⟩ := C06_solve_iter_call (withCG E0 n) alg (.cg o) A hB 1 X hcall
   rw [hn] at hsolves
   exact ⟨Y, hY, hsolves⟩
+
+/-- **the options reach the solver**: when `inv(A, alg)` is `IterativeOperatorWInfo(A, CG-object o)`
+(for `alg = CG(tol, max_iters)` the object itself, for `alg = Auto(**d)` above 10⁶ entries
+`CG(**d)`: `C06_iter_paths`, `C06_solver_options`), `solve(A, X, alg)` IS the C12 model
+`run_batched_cg` run with `o.tol` and `o.max_iters` — the caller's values. -/
+theorem C06_cg_runs_with_options (E0 : Ext 𝕜) (alg : Alg) (o : KOpts) (n : ℕ) (A : Op 𝕜)
+    (hn : A.rows = n) (hB : invRule (withCG E0 n) alg A = .ok (.iterInv A (.cg o))) (X : MatF 𝕜) :
+    solveRule (withCG E0 n) alg A 1 X = .ok (cgColumn o.maxIters (o.tol : ℝ) n A X) ∧
+      (∀ d, alg = .auto d → o = .ofDict d) ∧ (∀ o', alg = .cg o' → o = o') := by
+  refine ⟨?_, ?_, ?_⟩
+  · unfold solveRule
+    rw [hB]
+    simp [Except.map, InvOp.mm, withCG, hn]
+  · intro d hd
+    have h := invRule_solvers (withCG E0 n) alg A _ hB (.cg o) (by simp [InvOp.solvers])
+    have h2 := h.2.1
+    rw [hd] at h2
+    simpa [Alg.kopts, Alg.requested] using h2
+  · intro o' ho'
+    have h := invRule_solvers (withCG E0 n) alg A _ hB (.cg o) (by simp [InvOp.solvers])
+    have h2 := h.2.1
+    rw [ho'] at h2
+    simpa [Alg.kopts, Alg.requested] using h2
 
 /-- **`solve(A, b, CG(tol, max_iters))` solves `A x = b` when CG is run to the grade of `b`** (one
 right-hand side, no preconditioner).  `A` is any operator of extent `n` that falls to the CG rule
@@ -73,34 +101,34 @@ matrix is Hermitian positive definite with `cA ‖v‖² ≤ re ⟪v, A v⟫`, `
 `gradeReached`: the solution lies in the Krylov space of the `k` executed steps.  The conclusion of
 `C12_optimal_inputs` (unique energy minimiser over `x₀ + K_k`) then forces the iterate to be the
 solution. -/
-theorem C06_solve_cg_at_grade (E0 : Ext 𝕜) (maxIters : ℕ) (tol : ℝ) (n : ℕ) (A : Op 𝕜)
+theorem C06_solve_cg_at_grade (E0 : Ext 𝕜) (alg : Alg) (o : KOpts) (n : ℕ) (A : Op 𝕜)
     (hn : A.rows = n)
-    (hB : invRule (withCG E0 maxIters tol n) .cg A = .ok (.iterInv A .cg)) (X : MatF 𝕜)
+    (hB : invRule (withCG E0 n) alg A = .ok (.iterInv A (.cg o))) (X : MatF 𝕜)
     (hpd : (MatF.toMatrix n n A.den.f).PosDef) {cA : ℝ} (hcA : 0 < cA)
-    (A_coercive : Coercive (denLin n A) cA) (hb : colVec n X 0 ≠ 0) (tol_pos : 0 < tol)
-    (tol_admissible : TolAdmissible smallR cA 1 tol)
+    (A_coercive : Coercive (denLin n A) cA) (hb : colVec n X 0 ≠ 0) (tol_pos : 0 < (o.tol : ℝ))
+    (tol_admissible : TolAdmissible smallR cA 1 (o.tol : ℝ))
     (xs : EuclideanSpace 𝕜 (Fin n)) (hxs : denLin n A xs = colVec n X 0)
     (gradeReached : xs - 0 ∈ krylov (precLin none ∘ₗ denLin n A)
       (precLin none (colVec n X 0 - denLin n A 0))
       (runBatchedCG (matArr (MatF.toMatrix n n A.den.f)) (colsArr (oneCol (colVec n X 0)))
-        (colsArr (oneCol (0 : EuclideanSpace 𝕜 (Fin n)))) maxIters ((tol : ℝ) : 𝕜)
+        (colsArr (oneCol (0 : EuclideanSpace 𝕜 (Fin n)))) o.maxIters (((o.tol : ℝ) : ℝ) : 𝕜)
         ((none : Option (Matrix (Fin n) (Fin n) 𝕜)).map matArr)).k) :
-    ∃ Y, solveRule (withCG E0 maxIters tol n) .cg A 1 X = .ok Y ∧ EqOn n 1 (mmul n A.den.f Y.f) X := by
+    ∃ Y, solveRule (withCG E0 n) alg A 1 X = .ok Y ∧ EqOn n 1 (mmul n A.den.f Y.f) X := by
   have hP : PrecPosDef (none : Option (Matrix (Fin n) (Fin n) 𝕜)) := fun _ h => by cases h
   have h := C12_optimal_inputs hpd hP hcA one_pos A_coercive (coercive_id n)
-    (oneCol (colVec n X 0)) (oneCol 0) hb maxIters tol_pos tol_admissible hxs
+    (oneCol (colVec n X 0)) (oneCol 0) hb o.maxIters tol_pos tol_admissible hxs
   simp only at h
   obtain ⟨_, _, _, _, huniq⟩ := h
   have hpos : ∀ v : EuclideanSpace 𝕜 (Fin n), 0 ≤ RCLike.re ⟪v, denLin n A v⟫_𝕜 := fun v =>
     le_trans (by positivity) (A_coercive v)
   have hxeq : xs = xOut (MatF.toMatrix n n A.den.f) none (oneCol (colVec n X 0)) (oneCol 0)
-      maxIters ((tol : ℝ) : 𝕜) 0 := by
+      o.maxIters (((o.tol : ℝ) : ℝ) : 𝕜) 0 := by
     apply huniq xs gradeReached
     have h0 : energy (denLin n A) xs xs = 0 := by simp [energy]
     show energy (denLin n A) xs xs ≤ _
     rw [h0]
     exact hpos _
-  exact C06_solve_of_cg_exact E0 maxIters tol n A hn hB X (by rw [← hxeq]; exact hxs)
+  exact C06_solve_of_cg_exact E0 alg o n A hn hB X (by rw [← hxeq]; exact hxs)
 
 /-! ## witness: `tridiag(-1, 2, -1)` of `C12_witness_three_steps` as a PSD-declared `Dense` operator -/
 
@@ -116,41 +144,98 @@ noncomputable def realExtCG : Ext ℝ :=
   { recip := fun x => x⁻¹, chol := fun _ D => MatV.of D, lu := fun _ D => ([], MatV.of D, MatV.of D),
     solve := fun _ _ _ _ => MatV.of zeroM }
 
+/-- the solver object `CG(tol = 1/10, max_iters = 5)` -/
+def cgObj : KOpts := ⟨1 / 10, 5⟩
+
+private theorem tri3_rule : invRule (withCG realExtCG 3) (.cg cgObj) tri3Op
+    = .ok (.iterInv tri3Op (.cg cgObj)) := by
+  simp [tri3Op, invRule, invAux, algRule, effAlg, Op.isa, Op.anns, AnnSet.isa, AnnSet.union, Ann.sub]
+
+private theorem tri3_mat : MatF.toMatrix 3 3 tri3Op.den.f = exA3 := by
+  ext i j
+  simp [tri3Op, Op.den, MatF.toMatrix_apply]
+
+private theorem e0_vec : colVec 3 e0colCG 0 = exb3 := by
+  apply WithLp.ofLp_injective 2
+  funext i
+  show (if i.val = 0 then (1 : ℝ) else 0) = exb3.ofLp i
+  fin_cases i <;> simp [exb3]
+
+private theorem zero_vec : (0 : EuclideanSpace ℝ (Fin 3)) = exz3 := by
+  apply WithLp.ofLp_injective 2
+  funext i
+  fin_cases i <;> simp [exz3]
+
+private theorem cgObj_tol : ((cgObj.tol : ℚ) : ℝ) = 1 / 10 := by
+  simp [cgObj]
+
 /-- **the hypotheses of `C06_solve_of_cg_exact` are satisfiable on a non-trivial input, and the
 composed conclusion**: for `A = PSD(Dense(tridiag(-1, 2, -1)))` (3 × 3), `b = e₀`,
 `CG(tol = 1/10, max_iters = 5)`: the C12 model makes three steps and returns `(3/4, 1/2, 1/4)`
 (`C12_witness_three_steps`), and `solve(A, b, CG)` returns `Y` with `A · Y = b`. -/
 theorem C06_cg_witness :
     tri3Op.rows = 3 ∧
-    invRule (withCG realExtCG 5 (1 / 10) 3) .cg tri3Op = .ok (.iterInv tri3Op .cg) ∧
-    ∃ Y, solveRule (withCG realExtCG 5 (1 / 10) 3) .cg tri3Op 1 e0colCG = .ok Y ∧
+    invRule (withCG realExtCG 3) (.cg cgObj) tri3Op = .ok (.iterInv tri3Op (.cg cgObj)) ∧
+    ∃ Y, solveRule (withCG realExtCG 3) (.cg cgObj) tri3Op 1 e0colCG = .ok Y ∧
       EqOn 3 1 (mmul 3 tri3Op.den.f Y.f) e0colCG := by
   have hn : tri3Op.rows = 3 := by simp [tri3Op, Op.rows]
-  have hB : invRule (withCG realExtCG 5 (1 / 10) 3) .cg tri3Op = .ok (.iterInv tri3Op .cg) := by
-    simp [tri3Op, invRule, invAux, algRule, effAlg, Op.isa, Op.anns, AnnSet.isa, AnnSet.union, Ann.sub]
-  refine ⟨hn, hB, C06_solve_of_cg_exact realExtCG 5 (1 / 10) 3 tri3Op hn hB e0colCG ?_⟩
-  have hm : MatF.toMatrix 3 3 tri3Op.den.f = exA3 := by
-    ext i j
-    simp [tri3Op, Op.den, MatF.toMatrix_apply]
-  have hb : colVec 3 e0colCG 0 = exb3 := by
-    apply WithLp.ofLp_injective 2
-    funext i
-    show (if i.val = 0 then (1 : ℝ) else 0) = exb3.ofLp i
-    fin_cases i <;> simp [exb3]
-  have hz : (0 : EuclideanSpace ℝ (Fin 3)) = exz3 := by
-    apply WithLp.ofLp_injective 2
-    funext i
-    fin_cases i <;> simp [exz3]
+  refine ⟨hn, tri3_rule, C06_solve_of_cg_exact realExtCG _ cgObj 3 tri3Op hn tri3_rule e0colCG ?_⟩
   obtain ⟨_, _, _, _, _, _, hsolves, _, hout⟩ := C12_witness_three_steps
   unfold denLin
-  rw [hm, hb, hz]
+  rw [tri3_mat, e0_vec, zero_vec, cgObj_tol]
   have hout' : xOut exA3 none (oneCol exb3) (oneCol exz3) 5 (RCLike.ofReal (1 / 10 : ℝ)) 0
       = !₂[3 / 4, 1 / 2, 1 / 4] := hout
+  show toEuclideanLin exA3 (xOut exA3 none (oneCol exb3) (oneCol exz3) 5
+    (RCLike.ofReal (1 / 10 : ℝ)) 0) = exb3
   rw [hout']
   exact hsolves
+
+/-- **`C06_solve_cg_at_grade` instantiated** (round 3): on the same input EVERY hypothesis of the
+at-grade theorem holds — the matrix is positive definite and coercive with `cA = 1/2`, `b = e₀ ≠ 0`,
+the tolerance `1/10` of the solver object is admissible, and the solution `(3/4, 1/2, 1/4)` lies in
+the Krylov space of the three executed steps (`gradeReached`, from the membership conclusion of
+`C12_optimal_inputs` on `C12_witness_three_steps`) — and the conclusion is obtained THROUGH the
+theorem, not through `C06_solve_of_cg_exact`. -/
+theorem C06_cg_at_grade_witness :
+    ∃ Y, solveRule (withCG realExtCG 3) (.cg cgObj) tri3Op 1 e0colCG = .ok Y ∧
+      EqOn 3 1 (mmul 3 tri3Op.den.f Y.f) e0colCG := by
+  have hn : tri3Op.rows = 3 := by simp [tri3Op, Op.rows]
+  obtain ⟨hpd, hP, hco, hMi, hb, htol, hsolves, hk, hout⟩ := C12_witness_three_steps
+  have hlin : denLin 3 tri3Op = toEuclideanLin exA3 := by unfold denLin; rw [tri3_mat]
+  have hmem := (C12_optimal_inputs hpd hP (by norm_num : (0 : ℝ) < 1 / 2) one_pos hco hMi
+    (oneCol exb3) (oneCol exz3) hb 5 (by norm_num : (0 : ℝ) < 1 / 10) htol hsolves).2.2.1
+  simp only at hmem
+  have hout' : xOut exA3 none (oneCol exb3) (oneCol exz3) 5 (RCLike.ofReal (1 / 10 : ℝ)) 0
+      = !₂[3 / 4, 1 / 2, 1 / 4] := hout
+  apply C06_solve_cg_at_grade realExtCG (.cg cgObj) cgObj 3 tri3Op hn tri3_rule e0colCG
+    (cA := 1 / 2) (xs := !₂[3 / 4, 1 / 2, 1 / 4])
+  · rw [tri3_mat]; exact hpd
+  · norm_num
+  · rw [hlin]; exact hco
+  · rw [e0_vec]; exact hb
+  · rw [cgObj_tol]; norm_num
+  · rw [cgObj_tol]; exact htol
+  · rw [hlin, e0_vec]; exact hsolves
+  · rw [hlin, e0_vec, tri3_mat, cgObj_tol, zero_vec]
+    have h2 : (oneCol exz3) 0 = exz3 := rfl
+    have h3 : (oneCol exb3) 0 = exb3 := rfl
+    rw [h2, h3] at hmem
+    rw [hout'] at hmem
+    exact hmem
+
+/-- **the options reach the solver, instantiated**: `solve(A, b, CG(tol = 1/10, max_iters = 5))` on
+the witness is the C12 model run with exactly `max_iters = 5`, `tol = 1/10`. -/
+theorem C06_cg_options_witness :
+    solveRule (withCG realExtCG 3) (.cg cgObj) tri3Op 1 e0colCG
+      = .ok (cgColumn 5 ((1 / 10 : ℚ) : ℝ) 3 tri3Op e0colCG) :=
+  (C06_cg_runs_with_options realExtCG (.cg cgObj) cgObj 3 tri3Op (by simp [tri3Op, Op.rows])
+    tri3_rule e0colCG).1
 
 end C06
 
 #print axioms C06.C06_solve_of_cg_exact
 #print axioms C06.C06_solve_cg_at_grade
 #print axioms C06.C06_cg_witness
+#print axioms C06.C06_cg_runs_with_options
+#print axioms C06.C06_cg_at_grade_witness
+#print axioms C06.C06_cg_options_witness
